@@ -169,6 +169,8 @@ func runC06(c *Ctx) {
 	symmetryRule(c, "save-load-symmetry")
 	freshDecodeRule(c, "fresh-decode-target")
 	loadReplacesRule(c, "load-replaces")
+	loadRestoresRule(c, "load-restores", func(pp string) bool { return !clientPkg(pp) }, 5)
+	savedCoversWrittenRule(c, "saved-covers-written", func(pp string) bool { return !clientPkg(pp) }, 6)
 
 	// (5) queue snapshot / restore
 	queueSnapshotRule(c, "queue-snapshot")
@@ -910,4 +912,167 @@ func loadReplacesRule(c *Ctx, rule string) {
 		c.Check(why == "", rule, SSAFuncKey(fn), fn.Pos(), "containers filled by the load are replaced first", why)
 	}
 	c.Floor(rule, 7)
+}
+
+// restoringOps lists the instructions of a LoadCheckpoint that put decoded data
+// into the receiver: stores to receiver-rooted memory, atomic stores on receiver
+// fields, and restore/Restore calls on receiver fields.
+func restoringOps(fn *ssa.Function) []ssa.Instruction {
+	recv := fn.Params[0]
+	var out []ssa.Instruction
+	for _, b := range fn.Blocks {
+		for _, in := range b.Instrs {
+			switch x := in.(type) {
+			case *ssa.Store:
+				if memRoot(x.Addr) == ssa.Value(recv) {
+					out = append(out, in)
+				}
+			case ssa.CallInstruction:
+				n, pk := calleeNamePkg(x)
+				args := x.Common().Args
+				if pk == "sync/atomic" && strings.HasPrefix(n, "Store") && len(args) > 0 && memRoot(args[0]) == ssa.Value(recv) {
+					out = append(out, in)
+				}
+				if (n == "restore" || n == "Restore") && len(args) > 0 && memRoot(args[0]) == ssa.Value(recv) {
+					out = append(out, in)
+				}
+			}
+		}
+	}
+	return out
+}
+
+// loadRestoresRule: an operation of LoadCheckpoint that restores part of the
+// receiver on one successful path must be performed on every successful path: a
+// load that returns nil without having restored a field leaves that field at
+// whatever the rebuilt (or still running) object held.
+func loadRestoresRule(c *Ctx, rule string, pred func(string) bool, floor int) {
+	p := c.P
+	n := 0
+	for _, fn := range p.SrcFuncs(pred) {
+		if fn.Name() != "LoadCheckpoint" || fn.Signature.Recv() == nil || len(fn.Blocks) == 0 || len(fn.Params) == 0 {
+			continue
+		}
+		var rets []ssa.Instruction
+		for _, b := range fn.Blocks {
+			if ret, ok := b.Instrs[len(b.Instrs)-1].(*ssa.Return); ok && len(ret.Results) > 0 && isNilConst(ret.Results[len(ret.Results)-1]) {
+				rets = append(rets, ret)
+			}
+		}
+		ops := restoringOps(fn)
+		if len(ops) == 0 || len(rets) == 0 {
+			continue
+		}
+		n++
+		why := ""
+		for _, op := range ops {
+			some, all := false, true
+			var missed ssa.Instruction
+			for _, r := range rets {
+				if InstrDominates(op, r) {
+					some = true
+				} else {
+					all = false
+					missed = r
+				}
+			}
+			if some && !all {
+				why = "the restore at " + p.Rel(op.Pos()) + " is skipped on the successful return at " + p.Rel(missed.Pos())
+			}
+		}
+		c.Check(why == "", rule, SSAFuncKey(fn), fn.Pos(), "every successful path performs every restore ("+itoa(len(ops))+" restores, "+itoa(len(rets))+" successful returns)",
+			why+": loading such a checkpoint reports success but leaves the object's own value in place, so the resumed run does not continue the saved one (e.g. an ID counter saved at 0 is not restored into a generator that has already advanced)")
+	}
+	c.Floor(rule, floor)
+}
+
+// savedCoversWrittenRule: every field of a type with SaveCheckpoint that one of
+// the type's own methods stores into at run time must be read by SaveCheckpoint
+// (or be a synchronisation primitive): a memo or cursor that survives only in
+// memory makes behaviour depend on history that a checkpoint does not carry.
+func savedCoversWrittenRule(c *Ctx, rule string, pred func(string) bool, floor int) {
+	p := c.P
+	cg := p.ModCG()
+	n := 0
+	for _, save := range p.SrcFuncs(pred) {
+		if save.Name() != "SaveCheckpoint" || save.Signature.Recv() == nil || len(save.Blocks) == 0 || save.Origin() != nil {
+			continue
+		}
+		rt := save.Signature.Recv().Type()
+		if pt, ok := rt.(*types.Pointer); ok {
+			rt = pt.Elem()
+		}
+		st, ok := rt.Underlying().(*types.Struct)
+		if !ok {
+			continue
+		}
+		named, _ := rt.(*types.Named)
+		if named == nil || strings.HasSuffix(named.Obj().Name(), "Simulation") {
+			continue
+		}
+		pkgP := named.Obj().Pkg().Path()
+		inPkg := func(fn *ssa.Function) bool { return pkgOfFn(fn) == pkgP }
+		read := map[*types.Var]bool{}
+		for g := range cg.Reach([]*ssa.Function{save}, inPkg) {
+			for _, b := range g.Blocks {
+				for _, in := range b.Instrs {
+					if fa, isFA := in.(*ssa.FieldAddr); isFA {
+						if fo := FieldOf(fa); fo != nil {
+							read[fo] = true
+						}
+					}
+					if f, isF := in.(*ssa.Field); isF {
+						if s2, isS := f.X.Type().Underlying().(*types.Struct); isS {
+							read[s2.Field(f.Field)] = true
+						}
+					}
+				}
+			}
+		}
+		isRead := func(f *types.Var) bool {
+			for r := range read {
+				if sameObj(r, f) {
+					return true
+				}
+			}
+			return false
+		}
+		n++
+		for i := 0; i < st.NumFields(); i++ {
+			fld := st.Field(i)
+			ts := fld.Type().String()
+			if strings.HasPrefix(ts, "sync.") || strings.HasPrefix(ts, "*sync.") || fld.Embedded() {
+				continue
+			}
+			// run-time writers: methods of the type (not Load/restore/constructors) that store the field
+			writer := ""
+			for _, fn := range p.SrcFuncs(func(pp string) bool { return pp == pkgP }) {
+				if fn.Signature.Recv() == nil || fn.Name() == "LoadCheckpoint" || strings.HasPrefix(strings.ToLower(fn.Name()), "restore") || strings.HasPrefix(fn.Name(), "With") || strings.HasPrefix(fn.Name(), "Set") || strings.HasPrefix(fn.Name(), "Register") || strings.HasPrefix(fn.Name(), "Assign") || strings.HasPrefix(fn.Name(), "Add") || strings.HasPrefix(fn.Name(), "Declare") || strings.HasPrefix(fn.Name(), "Plug") || strings.HasPrefix(fn.Name(), "Accept") {
+					continue
+				}
+				r2 := fn.Signature.Recv().Type()
+				if pt, isP := r2.(*types.Pointer); isP {
+					r2 = pt.Elem()
+				}
+				if n2, isN := r2.(*types.Named); !isN || n2.Origin() != named.Origin() {
+					continue
+				}
+				for _, b := range fn.Blocks {
+					for _, in := range b.Instrs {
+						if s3, isSt := in.(*ssa.Store); isSt {
+							if fo := FieldOf(s3.Addr); fo != nil && sameObj(fo, fld) && len(fn.Params) > 0 && memRoot(s3.Addr) == ssa.Value(fn.Params[0]) {
+								writer = SSAFuncKey(fn) + " (" + p.Rel(s3.Pos()) + ")"
+							}
+						}
+					}
+				}
+			}
+			if writer == "" {
+				continue
+			}
+			c.Check(isRead(fld), rule, typeShort(rt)+"."+fld.Name(), save.Pos(), "written at run time and read by SaveCheckpoint",
+				"field "+fld.Name()+" of "+typeShort(rt)+" is assigned at run time by "+writer+" but SaveCheckpoint never reads it: it is run-time state that a checkpoint does not carry, so a restored object (or one that was never queried) behaves differently from the original")
+		}
+	}
+	c.Check(n >= floor, rule, "instances", 0, "checkpointed types inspected ("+itoa(n)+")", "fewer checkpointed types than expected were inspected")
 }
